@@ -117,15 +117,17 @@ def check_range_fn(ctx, qn):
         parts = [v for v in fs.values]
         fv = [v.value for v in parts if isinstance(v, ast.FormattedValue)]
         consts = [v.value for v in parts if isinstance(v, ast.Constant)]
-        if len(fv) == 2 and all(isinstance(x, ast.Name) for x in fv) and consts[:2] == ['bytes=', '-'] and len(consts) == 2:
-            S, E = fv[0].id, fv[1].id
+        if len(fv) == 2 and consts[:2] == ['bytes=', '-'] and len(consts) == 2:
+            S, E = fv[0], fv[1]
     ctx.ob(f, "returns f'bytes={start}-{end}'", S is not None, f'range header format changed: {norm(fs) if fs is not None else None}')
     if S is None:
         return
-    starts = [v for st, v in q.local_defs(f, S) if isinstance(v, ast.AST)]
+    # start / end are locals (with their definitions) or the expressions themselves
+    starts = [v for st, v in q.local_defs(f, S.id) if isinstance(v, ast.AST)] if isinstance(S, ast.Name) else [S]
     ok = len(starts) == 1 and equal(starts[0], f'{i} * {p}')
     ctx.ob(f, f'range start = {i} * {p}', ok, f'range start must be part_index * part_size, found {[norm(s) for s in starts]}')
-    ends = [(st, v) for st, v in q.local_defs(f, E) if isinstance(v, ast.AST)]
+    ends = [(st, v) for st, v in q.local_defs(f, E.id) if isinstance(v, ast.AST)] if isinstance(E, ast.Name) else [(ret[0], E)]
+    S = S.id if isinstance(S, ast.Name) else '<start>'
     inner = [(st, v) for st, v in ends if not q.guards_imply(q.guards(st), f'{i} == {n} - 1')]
     last = [(st, v) for st, v in ends if q.guards_imply(q.guards(st), f'{i} == {n} - 1')]
     ok = len(inner) == 1
@@ -189,7 +191,7 @@ def tiling_identities(ctx):
     ctx.ob(f, 'current_index = part_index * part_size (start of the requested range)', ok, f'found {[norm(v) for v in cur]} vs range({", ".join(norm(a) for a in cs[0].args) if cs else ""})')
     f = ctx.func('__init__.MultipartDownloader._download_file_as_future')
     npn = _np_names(f)
-    ps = q.names_defined_by(f, lambda v: norm(v).endswith('multipart_chunksize'))
+    ps = q.names_defined_by(f, lambda v: norm(v).endswith('multipart_chunksize')) or ['self._config.multipart_chunksize']
     npd = [v for nm in npn[:1] for st, v in q.local_defs(f, nm) if isinstance(v, ast.AST)]
     ctx.ob(f, 'num_parts = ceil(object_size / float(part_size))', len(npd) == 1 and bool(ps) and _num_parts_expr_ok(npd[0], 'object_size', ps[0]), f'{[norm(v) for v in npd]}')
     loops = [c for c in own_calls(f.node) if isinstance(c.func, ast.Name) and c.func.id == 'range' and len(c.args) == 1 and npn and norm(c.args[0]) == npn[0]]
@@ -227,7 +229,7 @@ def tiling_identities(ctx):
     ctx.ob(f, 'open_chunk_reader(filename, part_size * (part_number - 1), part_size, ...)', ok, 'legacy part k must cover [c(k-1), ck)')
     f = ctx.func('__init__.MultipartUploader._upload_parts')
     npn = _np_names(f)
-    ps = q.names_defined_by(f, lambda v: norm(v).endswith('multipart_chunksize'))
+    ps = q.names_defined_by(f, lambda v: norm(v).endswith('multipart_chunksize')) or ['self._config.multipart_chunksize']
     npd = [v for nm in npn[:1] for st, v in q.local_defs(f, nm) if isinstance(v, ast.AST)]
     ctx.ob(f, 'num_parts = ceil(file size / float(part_size))', len(npd) == 1 and bool(ps) and _num_parts_expr_ok(npd[0], 'self._os.get_file_size(filename)', ps[0]), f'{[norm(v) for v in npd]}')
     part = [c for c in own_calls(f.node) if (dotted(c.func) or '').endswith('partial') and c.args and norm(c.args[0]) == 'self._upload_one_part']
@@ -355,7 +357,13 @@ def limits_are_s3s_and_applied(ctx):
             a0defs = [norm(v) for _, v in q.local_defs(f, a0.id) if isinstance(v, ast.AST)] if isinstance(a0, ast.Name) else [norm(a0)]
             ok = 'config.multipart_chunksize' in a0defs and q.ntext(f, q.argn(adj[0], 'file_size', 1)) == 'transfer_future.meta.size'
         ctx.ob(f, 'adjust_chunksize(config.multipart_chunksize, size)', ok, 'the configured chunk size and the object size must be what gets adjusted')
-        rv = adj[0]._parent.targets[0].id if adj and isinstance(adj[0]._parent, ast.Assign) else None
+        rv = adj[0]._parent.targets[0].id if adj and isinstance(adj[0]._parent, ast.Assign) and isinstance(adj[0]._parent.targets[0], ast.Name) else None
+        ctx.ob(f, 'the adjusted chunk size is kept in a local of this transfer', rv is not None,
+               'the adjusted size must not be written back into the shared TransferConfig (it would change the configured chunk size of every later transfer)')
+        cfg_stores = [n for n in own_nodes(f.node) if isinstance(n, (ast.Assign, ast.AugAssign)) and any(
+            isinstance(t, ast.Attribute) and isinstance(t.value, ast.Name) and t.value.id == 'config' for t in (n.targets if isinstance(n, ast.Assign) else [n.target]))]
+        for n in cfg_stores:
+            ctx.ob(f, n, False, 'a submission task must not modify the manager-wide config')
         gf = ctx.cfg(f)
         for cn in consumers:
             for c in [c for c in own_calls(f.node) if (dotted(c.func) or '').split('.')[-1] == cn]:
